@@ -78,6 +78,15 @@ def lifecycle_replay(env):
             pass
         except Exception as e:
             bad.append('%s: unfitted query raised %s' % (K_.__name__, type(e).__name__))
+    for kw in ({}, {'conditions': {'a': 0.5}}, {'conditions': pd.Series({'a': 0.5})}):
+        try:
+            GaussianMultivariate().sample(3, **kw)
+            bad.append('GaussianMultivariate: unfitted sample(%s) returned a value' % ('conditions' if kw else ''))
+        except NotFittedError:
+            pass
+        except Exception as e:
+            bad.append('GaussianMultivariate: unfitted sample(%s) raised %s' % (type(kw.get('conditions')).__name__ if kw else '',
+                                                                                  type(e).__name__))
     g = GaussianMultivariate()
     for name, Xbad in (('empty', pd.DataFrame({'a': []})), ('nan', pd.DataFrame({'a': [1.0, np.nan]})),
                        ('strings', pd.DataFrame({'a': ['x', 'y']})),
@@ -715,11 +724,18 @@ def build_unfitted(chk):
         cases.append((fam, F['cls'], 'sample', 'n'))
     for meth in ('probability_density', 'log_probability_density', 'cumulative_distribution', 'sample', 'to_dict'):
         cases.append(('GaussianMultivariate', gm.GM, meth, 'frame'))
+    # every documented argument form of the sampler: with conditions given as a dict and as a Series
+    cases.append(('GaussianMultivariate', gm.GM, 'sample', 'conditions_dict'))
+    cases.append(('GaussianMultivariate', gm.GM, 'sample', 'conditions_series'))
     for cls, q, meth, shape in cases:
         def body(c, q=q, meth=meth, shape=shape):
             m = I.call_qual(q, [])
             msym = Sym(M)
             c.assume(ir.ge(M, 1))
+            if shape.startswith('conditions'):
+                cv = Sym(ir.var('condv'))
+                cond = {'a': cv} if shape == 'conditions_dict' else pdmodel.SeriesRow(['a'], [cv])
+                return I.call_method(m, meth, [msym], {'conditions': cond})
             if meth == 'to_dict':
                 args = []
             elif meth == 'sample' or shape == 'n':
@@ -740,7 +756,8 @@ def build_unfitted(chk):
                 continue
             okk = r.outcome == 'raise' and r.value.clsname == 'NotFittedError'
             what = r.value.clsname if r.outcome == 'raise' else 'returned a value'
-            chk.add(Ob('C19.unfitted.%s.%s.%d' % (cls, meth, j), r.pc, ir.const(bool(okk)), function=q + '.' + meth,
+            chk.add(Ob('C19.unfitted.%s.%s%s.%d' % (cls, meth, '.' + shape if shape.startswith('conditions') else '', j), r.pc,
+                       ir.const(bool(okk)), function=q + '.' + meth,
                        free_ufs_ok=True, replay=lifecycle_replay,
                        clause='querying or sampling an unfitted model raises NotFittedError [%s]' % what))
 
